@@ -2118,9 +2118,10 @@ class TestGraph(object):
 
             if next.is_occupied(worker):
                 # ending with an occupied node would mean we wait for a permill of its duration
-                test_duration = next.params.get_numeric(
-                    "test_timeout", 3600
-                ) * next.params.get_numeric("max_tries", 1)
+                # a test without retries (also with zero for maximum tries) is still run once
+                test_duration = next.params.get_numeric("test_timeout", 3600) * max(
+                    next.params.get_numeric("max_tries", 1), 1
+                )
                 if next.is_object_root():
                     # creating an object takes two test runs (configuration and installation)
                     test_duration *= 2
